@@ -178,4 +178,23 @@ PROPS = {
                     "reproduced on the real code by every run). AES-GCM integrity is assumed, not proved."),
         engine="codec-harness",
     ),
+    "C06": dict(
+        lean_modules=["Swim.Model.Susp", "Swim.Lemmas.Merge", "Swim.Props.C06"],
+        tests="^TestC06$",
+        rule=("(susp) timed confirmation scripts on the real suspicion timer in virtual time (testing/synctest): k in {0,1,2,3,4,6}, minimum timeouts "
+              "incl. values that are not whole milliseconds, max = 1,2,6 x min, up to 8 confirmations from 7 names incl. the accuser and duplicates at "
+              "delays before, around and after the would-be deadline; the timeout table is read from remainingSuspicionTime and checked against the "
+              "schedule hypotheses, firing instant compared exactly with the model; (hist) node-level histories of suspect / refute / re-suspect / "
+              "departure / name reuse / stale timer callbacks; non-trivial = at least one accepted confirmation or 3 effective operations"),
+        trusted_base=COMMON_TB + ["math.Log / math.Floor in remainingSuspicionTime: the table for the run's (k,min,max) is an input whose required shape "
+                                  "(bounded, minimum at k, non-increasing) is checked on every run, not proved",
+                                  "Go timers in a synctest bubble fire at their deadline; Stop reports whether it prevented the firing"],
+        assumptions=["state changes carry distinct change times (monotonic clock)"],
+        level_text=("Proof: for every timed sequence of confirmations the timer fires within [start+min, start+max], each distinct confirmer counts once, "
+                    "the accuser never, nothing after k, an accepted confirmation re-arms to exactly start+tmo(n) or fires at once, k=0 uses the minimum "
+                    "from the start; a stale timer callback is harmless (Lean, under the schedule hypotheses). Tied by exact virtual-time comparison of "
+                    "the real timer with the model and by node-level histories."),
+        level_note="Trusted: Lean kernel; float evaluation of the schedule (checked per run); Go timer semantics under synctest.",
+        engine="step-harness+synctest",
+    ),
 }
